@@ -1,65 +1,389 @@
+import Faithful.Generated.Consts
+
+/-!
+# Paging — model of `gsfa/gsfa-read-multiepoch.go` and of the `getSignaturesForAddress` JSON-RPC handler
+
+What the Go code does (read line by line, pinned tree):
+
+* `GsfaReaderMultiepoch.epochs` is a slice of per-epoch readers **in the order the caller supplies**
+  (the handler passes `getGsfaReadersInEpochDescendingOrder()`, newest epoch first).
+* `iterBeforeUntil` has three nested loops:
+  `epochLoop` over the readers; `for {}` over the chain of linked-log records of the address in that epoch
+  (`index.offsets.Get(pk)` gives the newest record, every record carries the location of the previous one;
+  a record holds a batch of `(offset,size,slot)` locations, newest first); `for range locations`.
+  The signature of a location is obtained through the caller's `fetcher` callback (it reads the transaction
+  node from the CAR); `before`/`until` are compared with that signature by `==`.
+  - address not in the epoch's index (`IsNotFound`) → `continue epochLoop`; any other lookup error → the request fails;
+  - `next.IsZero()` → `continue epochLoop`; `Count() >= limit` (checked before every record) → `break epochLoop`;
+  - a record with zero locations → `continue epochLoop` (the remaining chain of that epoch is not visited);
+  - per location: `!reachedBefore && sig == *before` → set, `continue`; `!reachedBefore` → `continue`;
+    `Count() >= limit` → `break epochLoop`; append to `transactions[epochNum]`; `sig == *until` → `break epochLoop`.
+  - `before` given but never met: nothing is ever appended — the answer is empty, not an error.
+* the result is a Go map `epoch → []tx`.  The model keeps the *tagged sequence* `(epoch, tx)` in append order:
+  the map is exactly its grouping (`group`), `Count()` is its length.
+* `iterBeforeUntilSlot(before, until)`: `limit <= 0 || before < until` → empty; epochs with
+  `epochNum > CalcEpochForSlot(before)` are skipped; per location `tx.Slot < until` → `break epochLoop`;
+  the pinned tree never compares a slot with `before` (parameter `fixed = false`); the repaired code
+  (`/verif/fixes/C07-2.patch`) skips locations with `tx.Slot >= before` (`fixed = true`).
+* the handler walks the result map with `for ei := range foundTransactions` — Go map order, modelled by an
+  arbitrary `order`; the repaired handler (`/verif/fixes/C07-1.patch`) walks the epoch numbers in the
+  descending order in which the readers were queried.
+
+Core Lean only.
+-/
 namespace Paging
 
-abbrev Sig := Nat
+structure Tx (σ : Type) where
+  sig : σ
+  slot : Nat
+deriving DecidableEq, Repr
 
-structure S where
-  acc : List Sig            -- transactions appended so far (all epochs), oldest appended last
-  reached : Bool            -- reachedBefore
-  stop : Bool               -- `break epochLoop` happened
+/-- the answer of `index.offsets.Get(pk)` for one loaded epoch -/
+inductive Lookup (σ : Type) where
+  /-- `compactindexsized.IsNotFound` → `continue epochLoop` -/
+  | notFound
+  /-- the chain of linked-log records of the address, newest record first, newest transaction first inside -/
+  | found (records : List (List (Tx σ)))
+  /-- any other error → "error while getting initial offset" -/
+  | failed
 
-/-- inner `for locIndex, txLoc := range locations` of iterBeforeUntil -/
-def recLoop (limit : Nat) (before untl : Option Sig) : List Sig → S → S
+/-- the loaded epochs in the order of `multi.epochs` -/
+abbrev Hist (σ : Type) := List (Nat × Lookup σ)
+
+abbrev Tagged (σ : Type) := List (Nat × Tx σ)
+
+structure S (σ : Type) where
+  /-- `transactions` (the map) as the sequence of appends; `transactions.Count() = acc.length` -/
+  acc : Tagged σ
+  /-- `reachedBefore` -/
+  reached : Bool
+  /-- `break epochLoop` happened -/
+  stop : Bool
+  /-- `return nil, err` happened -/
+  failed : Bool
+
+variable {σ : Type} [DecidableEq σ]
+
+/-! ## the loops of `iterBeforeUntil` -/
+
+/-- `for locIndex, txLoc := range locations` -/
+def recLoop (limit : Nat) (before untl : Option σ) (e : Nat) : List (Tx σ) → S σ → S σ
   | [], s => s
-  | sig :: rest, s =>
-    if !s.reached && before = some sig then recLoop limit before untl rest { s with reached := true }   -- continue
-    else if !s.reached then recLoop limit before untl rest s                                              -- continue
-    else if s.acc.length ≥ limit then { s with stop := true }                                             -- break epochLoop
-    else
-      let s' := { s with acc := s.acc ++ [sig] }
-      if untl = some sig then { s' with stop := true }                                                    -- break epochLoop
-      else recLoop limit before untl rest s'
+  | x :: rest, s =>
+    if s.reached = false ∧ before = some x.sig then recLoop limit before untl e rest { s with reached := true }
+    else if s.reached = false then recLoop limit before untl e rest s
+    else if limit ≤ s.acc.length then { s with stop := true }
+    else if untl = some x.sig then { s with acc := s.acc ++ [(e, x)], stop := true }
+    else recLoop limit before untl e rest { s with acc := s.acc ++ [(e, x)] }
 
-/-- the `for { ... ReadWithSize ... }` loop over the records of one epoch -/
-def epochLoop (limit : Nat) (before untl : Option Sig) : List (List Sig) → S → S
+/-- `for { … ReadWithSize … }` over the chain of records of one epoch -/
+def epochLoop (limit : Nat) (before untl : Option σ) (e : Nat) : List (List (Tx σ)) → S σ → S σ
   | [], s => s
   | r :: rs, s =>
-    if s.acc.length ≥ limit then { s with stop := true }
-    else
-      let s' := recLoop limit before untl r s
-      if s'.stop then s' else epochLoop limit before untl rs s'
+    if limit ≤ s.acc.length then { s with stop := true }
+    else if r.isEmpty then s
+    else if (recLoop limit before untl e r s).stop then recLoop limit before untl e r s
+    else epochLoop limit before untl e rs (recLoop limit before untl e r s)
 
-def allEpochs (limit : Nat) (before untl : Option Sig) : List (List (List Sig)) → S → S
+/-- `epochLoop: for readerIndex, index := range multi.epochs` -/
+def allEpochs (limit : Nat) (before untl : Option σ) : Hist σ → S σ → S σ
   | [], s => s
-  | e :: es, s =>
-    let s' := epochLoop limit before untl e s
-    if s'.stop then s' else allEpochs limit before untl es s'
+  | (_, .notFound) :: hs, s => allEpochs limit before untl hs s
+  | (_, .failed) :: _, s => { s with stop := true, failed := true }
+  | (e, .found recs) :: hs, s =>
+    if (epochLoop limit before untl e recs s).stop then epochLoop limit before untl e recs s
+    else allEpochs limit before untl hs (epochLoop limit before untl e recs s)
 
-def run (limit : Nat) (before untl : Option Sig) (hist : List (List (List Sig))) : List Sig :=
-  (allEpochs limit before untl hist { acc := [], reached := before.isNone, stop := false }).acc
+def start (before : Option σ) : S σ := { acc := [], reached := before.isNone, stop := false, failed := false }
 
-/-- the specification on the flat newest-first history -/
-def afterBefore : Option Sig → List Sig → List Sig
+/-- `GetBeforeUntil` / `iterBeforeUntil`: `limit` is a Go `int` -/
+def iterBeforeUntil (hs : Hist σ) (limit : Int) (before untl : Option σ) : Except String (Tagged σ) :=
+  if limit ≤ 0 then .ok []
+  else if (allEpochs limit.toNat before untl hs (start before)).failed then .error "error while getting initial offset"
+  else .ok (allEpochs limit.toNat before untl hs (start before)).acc
+
+/-! ## the specification on the flat newest-first history -/
+
+/-- the part of a record chain the reader can see: it stops at the first empty record
+    (the writer never produces one; then `visible = flatten`, see `visible_eq_flatten`) -/
+def visible {α : Type} : List (List α) → List α
+  | [] => []
+  | r :: rs => if r.isEmpty then [] else r ++ visible rs
+
+def entries : Lookup σ → List (Tx σ)
+  | .found recs => visible recs
+  | _ => []
+
+/-- the complete history of the address over the loaded epochs, in the order the epochs are supplied,
+    every entry tagged with its epoch -/
+def flatten (hs : Hist σ) : Tagged σ :=
+  hs.flatMap fun h => (entries h.2).map fun t => (h.1, t)
+
+/-- everything after the first entry whose signature is `b` (nothing when `b` does not occur) -/
+def dropAfter : Option σ → Tagged σ → Tagged σ
   | none, l => l
-  | some b, l => (l.dropWhile (· ≠ b)).drop 1
+  | some _, [] => []
+  | some b, x :: xs => if x.2.sig = b then xs else dropAfter (some b) xs
 
-def throughUntil : Option Sig → List Sig → List Sig
+/-- everything up to and including the first entry whose signature is `u` (everything when `u` does not occur) -/
+def takeThrough : Option σ → Tagged σ → Tagged σ
   | none, l => l
-  | some u, [] => []
-  | some u, x :: xs => if x = u then [x] else x :: throughUntil (some u) xs
+  | some _, [] => []
+  | some u, x :: xs => if x.2.sig = u then [x] else x :: takeThrough (some u) xs
 
-def spec (limit : Nat) (before untl : Option Sig) (hist : List (List (List Sig))) : List Sig :=
-  (throughUntil untl (afterBefore before (hist.flatten.flatten))).take limit
+def specL (l : Tagged σ) (limit : Int) (before untl : Option σ) : Tagged σ :=
+  (takeThrough untl (dropAfter before l)).take limit.toNat
 
--- executable cross-check on a few thousand small cases (a test, labelled as a test, not the theorem)
-def smallHists : List (List (List (List Sig))) :=
-  [ [[[1,2],[3]],[[4],[5,6]]], [[[1]],[],[[2,3,4]]], [[],[[1,2,3],[4,5]]], [[[1,2,3,4,5,6]]], [] ]
+def spec (hs : Hist σ) (limit : Int) (before untl : Option σ) : Tagged σ :=
+  specL (flatten hs) limit before untl
 
-def optSigs : List (Option Sig) := none :: (List.range 8).map some
+/-! ## simulation: what a state will still produce from the entries not yet visited -/
 
-def agreeAll : Bool :=
-  smallHists.all fun h => (List.range 8).all fun lim => lim == 0 || (optSigs.all fun b => optSigs.all fun u =>
-    run lim b u h == spec lim b u h)
+/-- final `acc` when the machine in state `s` has the (tagged) entries `L` still ahead -/
+def fin (limit : Nat) (before untl : Option σ) (s : S σ) (L : Tagged σ) : Tagged σ :=
+  if s.stop then s.acc
+  else s.acc ++ (takeThrough untl (if s.reached then L else dropAfter before L)).take (limit - s.acc.length)
 
-#eval agreeAll
+theorem takeThrough_nil (u : Option σ) : takeThrough u ([] : Tagged σ) = [] := by
+  cases u <;> rfl
+
+theorem dropAfter_nil (b : Option σ) : dropAfter b ([] : Tagged σ) = [] := by
+  cases b <;> rfl
+
+theorem fin_nil (limit : Nat) (before untl : Option σ) (s : S σ) : fin limit before untl s [] = s.acc := by
+  unfold fin
+  split
+  · rfl
+  · cases s.reached <;> simp [takeThrough_nil, dropAfter_nil]
+
+theorem fin_stop (limit : Nat) (before untl : Option σ) (s : S σ) (h : s.stop = true) (L : Tagged σ) :
+    fin limit before untl s L = s.acc := by
+  simp [fin, h]
+
+theorem recLoop_failed (limit : Nat) (before untl : Option σ) (e : Nat) (r : List (Tx σ)) (s : S σ) :
+    (recLoop limit before untl e r s).failed = s.failed := by
+  induction r generalizing s with
+  | nil => rfl
+  | cons x rest ih =>
+    unfold recLoop
+    split
+    · rw [ih]
+    · split
+      · rw [ih]
+      · split
+        · rfl
+        · split
+          · rfl
+          · rw [ih]
+
+theorem recLoop_reached (limit : Nat) (before untl : Option σ) (e : Nat) (r : List (Tx σ)) (s : S σ)
+    (h : s.reached = true) : (recLoop limit before untl e r s).reached = true := by
+  induction r generalizing s with
+  | nil => exact h
+  | cons x rest ih =>
+    unfold recLoop
+    split
+    · exact ih _ rfl
+    · split
+      · exact ih _ h
+      · split
+        · exact h
+        · split
+          · exact h
+          · exact ih _ h
+
+/-- the inner loop consumes the record `r`: afterwards the machine will produce from `L` exactly what it
+    would have produced before from `r ++ L` -/
+theorem recLoop_sim (limit : Nat) (before untl : Option σ) (e : Nat) (r : List (Tx σ)) (s : S σ) (L : Tagged σ)
+    (hs : s.stop = false) (hb : before = none → s.reached = true) :
+    fin limit before untl (recLoop limit before untl e r s) L
+      = fin limit before untl s (r.map (fun t => (e, t)) ++ L) := by
+  induction r generalizing s with
+  | nil => rfl
+  | cons x rest ih =>
+    unfold recLoop
+    split
+    · -- reachedBefore becomes true, the entry itself is skipped
+      rename_i h
+      rw [ih { s with reached := true } hs (fun _ => rfl)]
+      cases before with
+      | none => simp at h
+      | some b =>
+        have hx : x.sig = b := by
+          have := h.2; simp only [Option.some.injEq] at this; exact this.symm
+        simp [fin, hs, h.1, dropAfter, hx]
+    · split
+      · -- still before `before`
+        rename_i h1 h2
+        rw [ih s hs hb]
+        cases before with
+        | none => have := hb rfl; simp [h2] at this
+        | some b =>
+          have hx : ¬ x.sig = b := by
+            intro hx; exact h1 ⟨h2, by rw [hx]⟩
+          simp [fin, hs, h2, dropAfter, hx]
+      · rename_i h1 h2
+        have hr : s.reached = true := by
+          cases hr : s.reached with
+          | true => rfl
+          | false => exact absurd hr h2
+        split
+        · -- limit reached
+          rename_i h3
+          have : limit - s.acc.length = 0 := by omega
+          simp [fin, hs, this]
+        · rename_i h3
+          have hpos : limit - s.acc.length = (limit - s.acc.length - 1) + 1 := by omega
+          split
+          · -- `until` met: appended, then stop
+            rename_i h4
+            cases untl with
+            | none => simp at h4
+            | some u =>
+              have hx : x.sig = u := by
+                simp only [Option.some.injEq] at h4; exact h4.symm
+              simp only [fin, hs, hr, if_true, List.map_cons, List.cons_append, takeThrough, hx]
+              rw [hpos]
+              simp
+          · -- appended, go on
+            rename_i h4
+            rw [ih { s with acc := s.acc ++ [(e, x)] } hs (fun _ => hr)]
+            have hl : (s.acc ++ [(e, x)]).length = s.acc.length + 1 := by simp
+            cases untl with
+            | none =>
+              simp only [fin, hs, hr, if_true, List.map_cons, List.cons_append, takeThrough, hl]
+              rw [show limit - s.acc.length = (limit - (s.acc.length + 1)) + 1 by omega]
+              simp
+            | some u =>
+              have hx : ¬ x.sig = u := by
+                intro hx; exact h4 (by rw [hx])
+              simp only [fin, hs, hr, if_true, List.map_cons, List.cons_append, takeThrough, hl, hx, if_false]
+              rw [show limit - s.acc.length = (limit - (s.acc.length + 1)) + 1 by omega]
+              simp
+
+theorem epochLoop_failed (limit : Nat) (before untl : Option σ) (e : Nat) (recs : List (List (Tx σ))) (s : S σ) :
+    (epochLoop limit before untl e recs s).failed = s.failed := by
+  induction recs generalizing s with
+  | nil => rfl
+  | cons r rs ih =>
+    unfold epochLoop
+    split
+    · rfl
+    · split
+      · rfl
+      · split
+        · exact recLoop_failed ..
+        · rw [ih, recLoop_failed]
+
+theorem epochLoop_reached (limit : Nat) (before untl : Option σ) (e : Nat) (recs : List (List (Tx σ))) (s : S σ)
+    (h : s.reached = true) : (epochLoop limit before untl e recs s).reached = true := by
+  induction recs generalizing s with
+  | nil => exact h
+  | cons r rs ih =>
+    unfold epochLoop
+    split
+    · exact h
+    · split
+      · exact h
+      · split
+        · exact recLoop_reached _ _ _ _ _ _ h
+        · exact ih _ (recLoop_reached _ _ _ _ _ _ h)
+
+theorem epochLoop_sim (limit : Nat) (before untl : Option σ) (e : Nat) (recs : List (List (Tx σ))) (s : S σ)
+    (L : Tagged σ) (hs : s.stop = false) (hb : before = none → s.reached = true) :
+    fin limit before untl (epochLoop limit before untl e recs s) L
+      = fin limit before untl s ((visible recs).map (fun t => (e, t)) ++ L) := by
+  induction recs generalizing s with
+  | nil => rfl
+  | cons r rs ih =>
+    unfold epochLoop
+    split
+    · rename_i h
+      have : limit - s.acc.length = 0 := by omega
+      simp [fin, hs, this]
+    · split
+      · rename_i h
+        simp [visible, h]
+      · rename_i h
+        have hv : visible (r :: rs) = r ++ visible rs := by simp [visible, h]
+        rw [hv, List.map_append, List.append_assoc]
+        split
+        · rename_i hstop
+          rw [fin_stop _ _ _ _ hstop, ← fin_stop _ _ _ _ hstop ((visible rs).map (fun t => (e, t)) ++ L)]
+          exact recLoop_sim _ _ _ _ _ _ _ hs hb
+        · rename_i hstop
+          have hstop' : (recLoop limit before untl e r s).stop = false := by
+            cases hh : (recLoop limit before untl e r s).stop with
+            | true => exact absurd hh hstop
+            | false => rfl
+          rw [ih _ hstop' (fun hn => recLoop_reached _ _ _ _ _ _ (hb hn))]
+          exact recLoop_sim _ _ _ _ _ _ _ hs hb
+
+/-- no lookup failed with an error other than not-found -/
+def NoFailure (hs : Hist σ) : Prop := ∀ h ∈ hs, ∀ recs, h.2 = Lookup.found recs ∨ h.2 = Lookup.notFound
+
+def isFailed : Lookup σ → Bool
+  | .failed => true
+  | _ => false
+
+theorem allEpochs_sim (limit : Nat) (before untl : Option σ) (hs : Hist σ) (s : S σ)
+    (L : Tagged σ) (hst : s.stop = false) (hb : before = none → s.reached = true)
+    (hok : ∀ h ∈ hs, isFailed h.2 = false) :
+    fin limit before untl (allEpochs limit before untl hs s) L = fin limit before untl s (flatten hs ++ L)
+    ∧ (allEpochs limit before untl hs s).failed = s.failed := by
+  induction hs generalizing s with
+  | nil => exact ⟨rfl, rfl⟩
+  | cons h hs ih =>
+    obtain ⟨e, lk⟩ := h
+    have hok' : ∀ h ∈ hs, isFailed h.2 = false := fun h hh => hok h (List.mem_cons_of_mem _ hh)
+    cases lk with
+    | notFound =>
+      simp only [allEpochs]
+      have := ih s hst hb hok'
+      simpa [flatten, entries] using this
+    | failed =>
+      have := hok (e, .failed) (List.mem_cons_self)
+      simp [isFailed] at this
+    | found recs =>
+      simp only [allEpochs]
+      have hfl : flatten ((e, Lookup.found recs) :: hs) ++ L
+          = (visible recs).map (fun t => (e, t)) ++ (flatten hs ++ L) := by
+        simp [flatten, entries]
+      rw [hfl]
+      split
+      · rename_i hstop
+        refine ⟨?_, epochLoop_failed ..⟩
+        rw [fin_stop _ _ _ _ hstop, ← fin_stop _ _ _ _ hstop (flatten hs ++ L)]
+        exact epochLoop_sim _ _ _ _ _ _ _ hst hb
+      · rename_i hstop
+        have hstop' : (epochLoop limit before untl e recs s).stop = false := by
+          cases hh : (epochLoop limit before untl e recs s).stop with
+          | true => exact absurd hh hstop
+          | false => rfl
+        have := ih _ hstop' (fun hn => epochLoop_reached _ _ _ _ _ _ (hb hn)) hok'
+        refine ⟨?_, ?_⟩
+        · rw [this.1]; exact epochLoop_sim _ _ _ _ _ _ _ hst hb
+        · rw [this.2, epochLoop_failed]
+
+/-- **the three loops compute the slice**: for every history (any number of epochs, records, entries), every
+    `limit`, every `before`/`until` (present in the history or not) -/
+theorem iterBeforeUntil_eq_spec (hs : Hist σ) (limit : Int) (before untl : Option σ)
+    (hok : ∀ h ∈ hs, isFailed h.2 = false) :
+    iterBeforeUntil hs limit before untl = .ok (spec hs limit before untl) := by
+  unfold iterBeforeUntil spec specL
+  split
+  · rename_i h
+    have : limit.toNat = 0 := by omega
+    simp [this]
+  · have hb : before = none → (start before).reached = true := by
+      intro h; subst h; rfl
+    have := allEpochs_sim limit.toNat before untl hs (start before) [] rfl hb hok
+    rw [fin_nil] at this
+    have hf : (allEpochs limit.toNat before untl hs (start before)).failed = false := this.2
+    simp only [hf]
+    rw [this.1]
+    cases before with
+    | none => simp [fin, start, dropAfter]
+    | some b => simp [fin, start]
 
 end Paging
